@@ -26,6 +26,9 @@ type GenCfg struct {
 	Sub        bool // create the nested directory d0/sub
 	Symlinks   bool // create symlinks ld0 -> d0, lf -> d0/<name>
 	MaxAdds    int
+	MaxNames   int // size of the name pool (default 6)
+	PAddAgain  int // percent of Adds that re-add a path added before (default 25)
+	POnTop     int // percent of chmod/mkdir/rmdir/rename/rmr steps aimed at d0/d1 themselves (default 3)
 	WatchFiles int // percent of prologue Adds that target files
 }
 
@@ -180,7 +183,11 @@ func (g *Gen) Case() *Case {
 	c.Buf = rapid.SampledFrom(bufs).Draw(t, "buf")
 
 	// names
-	nn := rapid.IntRange(3, 6).Draw(t, "nnames")
+	maxn := g.cfg.MaxNames
+	if maxn < 2 {
+		maxn = 6
+	}
+	nn := rapid.IntRange(2, maxn).Draw(t, "nnames")
 	seen := map[string]bool{}
 	for i := 0; len(g.names) < nn && i < 50; i++ {
 		var n string
@@ -325,11 +332,13 @@ func (g *Gen) apiStep(prologue bool) {
 			wf = 30
 		}
 		switch {
+		case !prologue && len(g.added) > 0 && g.pct("addagain1", g.addAgain()):
+			cands = g.added
 		case g.pct("addfile", wf):
 			cands = g.fs.existing(func(p string, k byte) bool { return k == 'f' || k == 'l' })
 		case g.pct("addmissing", 8):
 			cands = []string{"d0/missing-x", "nowhere", "d0/" + g.names[0] + "/x", strings.Repeat("L", 300), "loopA"}
-		case g.pct("addagain", 25) && len(g.added) > 0:
+		case len(g.added) > 0 && g.pct("addagain", g.addAgain()):
 			cands = g.added
 		default:
 			cands = g.fs.existing(func(p string, k byte) bool { return k == 'd' && p != "u" })
@@ -359,6 +368,13 @@ func (g *Gen) apiStep(prologue bool) {
 	if g.cfg.ListEvery {
 		g.steps = append(g.steps, Step{K: KList})
 	}
+}
+
+func (g *Gen) addAgain() int {
+	if g.cfg.PAddAgain > 0 {
+		return g.cfg.PAddAgain
+	}
+	return 25
 }
 
 func (g *Gen) anyPath(label string) string {
@@ -418,7 +434,11 @@ func (g *Gen) fsStep() {
 	isDir := func(p string, k byte) bool { return k == 'd' }
 	// occasionally operate on a top-level (possibly watched) directory itself
 	top := func() (string, bool) {
-		if g.pct("ontop", 6) {
+		pt := g.cfg.POnTop
+		if pt == 0 {
+			pt = 3
+		}
+		if g.pct("ontop", pt) {
 			return g.pick("topdir", []string{"d0", "d1"}), true
 		}
 		return "", false
